@@ -53,3 +53,46 @@ func verifC17_compose() {
 	vAssert(k == bits.RotateLeft32(key, -8*(L%4)), "C17.sel.key")
 	vObserve("composed", parts, k)
 }
+
+// C17.asm: the assembly routine of mask_amd64.s, interpreted instruction by instruction, for buffer length L placed at
+// start alignment A (mod 64): the same two equalities as C17.go, bit for bit, and no access outside [b, b+L).
+func verifC17_asm() {
+	minL := vParam("minL", 0)
+	maxL := vParam("maxL", 80)
+	L := minL + vChoose("L", maxL-minL+1)
+	nAlign := vParam("aligns", 64)
+	A := vChoose("align", nAlign)
+	if vParam("alignset", 0) == 1 {
+		A = []int{0, 1, 7, 8, 15, 16, 31, 32, 33, 63}[A%10]
+	}
+	key := vU32("key")
+	data := vBytes("b", L)
+	guard := vBytes("guard", 32)
+	vGhostTrackAllocs()
+	// buf is allocated 64-byte aligned in the model; the region starts at offset 64+A, with guard bytes on both sides
+	buf := make([]byte, 64+A+L+64)
+	natural := vAlign64(buf)
+	off := natural + 64 + A - 64
+	if off < 16 {
+		off += 64
+	}
+	copy(buf[off-16:off], guard[:16])
+	copy(buf[off:off+L], data)
+	copy(buf[off+L:off+L+16], guard[16:])
+	vReach("C17.asm.call")
+	var r uint32
+	if L > 0 {
+		r = maskAsm(&buf[off], L, key)
+	} else {
+		r = maskAsm(nil, 0, key)
+	}
+	ok := true
+	for i := 0; i < L; i++ {
+		ok = vAnd(ok, buf[off+i] == data[i]^byte(key>>(8*uint(i%4))))
+	}
+	vAssert(ok, "C17.asm.bytes")
+	vAssert(r == bits.RotateLeft32(key, -8*(L%4)), "C17.asm.key")
+	vAssert(vAnd(vEqBytes(buf[off-16:off], guard[:16]), vEqBytes(buf[off+L:off+L+16], guard[16:])), "C17.asm.guard")
+	vAssert(vGhostAsmOOB() == 0, "C17.asm.bounds")
+	vObserve("asm", L, A, buf[off:off+L], r)
+}
